@@ -21,6 +21,15 @@ directly followed by a sibling whose block starts with another, a nested match
 before an outer one, adjacent matches).  Documented refusals (no match at all ->
 TransformReferenceError, overlapping windows -> TransformDeclined) are expected.
 
+Indexed assignments (skeletons S1/S2, no slots: one program each) are the one
+statement kind with two expression fields: `us[g1(u)] = g1(a) + m`,
+`ws[g1(u)][g1(v)] = g1(a) + m` (one and two indices, an inlinable call in every
+index AND in the value) and `us[h * h] = (h + h) * h + m`,
+`ws[h * h][h * u] = (h + h) * h + m` (products / exact arithmetic on both sides:
+rule:expr-mul, insert_round), every candidate of one statement textually
+distinct, so that "the j-th listed site is the node where=j rewrites" is judged
+across the index/value boundary for every expression-sited strategy.
+
 Oracle (all of it from an independent reading of the AST -- own walk, tuple
 paths, own candidate enumeration, marker tokens; see progen_c19.Reading):
 
@@ -848,7 +857,7 @@ def explore_program(r: ShardResult, name: str, src: str, depth: int, variants=Tr
 QUICK_ALPHABET = ('RfU', 'Rx', 'C1')
 DEEP_ALPHABET = ('RfU', 'Rx', 'C1')
 FULL_ALPHABET = ('RfU', 'Rr', 'Rx', 'Rs', 'R2', 'C1', 'C2', 'C11', 'Cn', 'M2')   # A, Rn, Rc, C3: fixed leaves only
-K_SKELETONS = tuple(k for k, _, _ in G.SKELETONS if k[0] in 'KHP')
+K_SKELETONS = tuple(k for k, _, _ in G.SKELETONS if k[0] in 'KHPS')
 D_SKELETONS = tuple(k for k, _, _ in G.SKELETONS if k.startswith('D'))
 EXTRA_PER_SEED = 8
 
@@ -863,8 +872,9 @@ def _programs(skeletons, alphabet):
 
 class Check(BaseCheck):
     pid = 'C19'
-    rule = ('every program of the grammar (12 skeletons -- 8 loop nests, 2 with arithmetic where insert_round '
-            'cannot put a block, 2 with several user-rule matches at different depths -- x every assignment of '
+    rule = ('every program of the grammar (14 skeletons -- 8 loop nests, 2 with arithmetic where insert_round '
+            'cannot put a block, 2 with several user-rule matches at different depths, 2 with indexed assignments '
+            'holding call / product / exact-arithmetic sites in their indices and their value -- x every assignment of '
             'their 1-2 leaf slots from the tier alphabet; each statement uniquely marked) x every history of '
             'rewrites (10 aimable strategies + 2 user rewrite rules in the history alphabet x where in '
             '{0..k-1, None}; on the original program also where=sites[j], where in {k,k+1,-1}, 10 parameter '
